@@ -282,6 +282,7 @@ fn vec_check(ctx: &mut Ctx) {
             max_ops: 60,
             initial_subs: (cfg.initial_subs.0.max(1), cfg.initial_subs.1.max(2)),
             max_initial: 16,
+            max_txn_body: 48,
             capacities: vec![16, 64, 64, 128],
             policies: vec![Policy::Lazy, Policy::Lazy, Policy::Eager],
             w_poll: 1,
@@ -595,6 +596,11 @@ fn c04(ctx: &mut Ctx) {
     let cfg = ObsGen { w_write: 16, w_handle: 3, ..ObsGen::default() };
     let n = ctx.pick(100_000, 2_000_000);
     ctx.random("sequential-histories-single-thread", "obs", &|| engine_obs::case(&cfg), &run, n);
+    // conditional setters on values whose == is coarser than identity: a refused write must leave
+    // the stored value alone ("every read returns the value of the latest preceding write")
+    let run = move |c: &crate::engine_zst::ShapeCase| crate::engine_zst::run_shape(c, prop);
+    let n = ctx.pick(60_000, 1_000_000);
+    ctx.random("value-shapes", "shape", &|| crate::engine_zst::shape_case(), &run, n);
 }
 
 /// Run `n` generated cases of the property's first vector phase and of the observable generator
